@@ -333,11 +333,15 @@ CHECK_DEADLOCK FALSE
         ctx.count_distinct(("bigsetting", big))
     # every scalar pretty-printer of the frozen table StructuredR.ScalarKind (text, hex, NUL-terminated bytes) and the BOF allocator
     SCALAR = [8, 9, 10, 15, 26, 27, 29, 30, 54, 60, 61, 62, 63, 64, 65, 66, 14, 53, 74, 36]
+    # (values with white space and line ends at their edges are text like any other: "Host: a.example\r\n" is what a header-line setting holds)
+    EDGES = [b"Host: group.example\r\n", b"value\n", b"value\r", b" value ", b"\tvalue\t", b"\r\n", b"a\r\nb\r\n\r\n", b"value ", b"'quoted'", b'"quoted"']
     for idx in SCALAR:
-        for _ in range(3 if q else 60):
+        for _ in range((3 if q else 60) + len(EDGES)):
             body = bytes(rng.randrange(1, 256) for _ in range(rng.choice([0, 1, 5, 16, 40])))
             if _ % 3 == 0:
                 body = rng.choice(["é", "€uro", "日本語", "naïve café", "\U0001F600x"]).encode("utf-8")
+            if _ >= (3 if q else 60):
+                body = EDGES[_ - (3 if q else 60)]
             raw = rng.choice([body, body + b"\x00", body + b"\x00" + bytes(rng.randrange(256) for _ in range(rng.randrange(1, 12))), body.ljust(64, b"\x00")])
             if idx == 9:
                 raw = raw[:100]  # (the 128-byte User-Agent continuation is C02's subject)
